@@ -47,6 +47,15 @@ func (c *constExpr) Exit(node *Node) {
 					param = nil
 				case *IntegerNode:
 					param = a.Value
+					// The checker may have retyped the literal for the parameter (int64, float64, ...).
+					if t := a.Type(); t != nil {
+						switch t.Kind() {
+						case reflect.Int8, reflect.Int16, reflect.Int32, reflect.Int64,
+							reflect.Uint, reflect.Uint8, reflect.Uint16, reflect.Uint32, reflect.Uint64,
+							reflect.Float32, reflect.Float64:
+							param = reflect.ValueOf(a.Value).Convert(t).Interface()
+						}
+					}
 				case *FloatNode:
 					param = a.Value
 				case *BoolNode:
